@@ -56,10 +56,11 @@ class ReceiveData(Contract):
         if st.has(exc, "partialData"):
             pd = st.get(exc, "partialData")
             post.append(("partialData==received-so-far", pd.e == z3.SubSeq(stream, pos0, pos - pos0)))
-            post.append(("short", z3.Length(pd.e) < a["size"].e))
+            post.append(("short", z3.And(z3.Length(pd.e) <= a["size"].e, z3.Implies(a["size"].e > 0, z3.Length(pd.e) < a["size"].e))))
         else:
-            # without partialData the cause must be a fatal socket error (never a silent short read)
-            post.append(("no-partialData-only-on-fatal-errno", fatal))
+            # the property (and receive_data's docstring): the connection-closed error carries the bytes received so far - also when the cause is
+            # a fatal socket error rather than end of stream
+            post.append(("the connection-closed error carries the bytes received so far (partialData)", z3.BoolVal(False)))
         return post
 
     def exc_fields(self, E, st, a, qname, exc):
